@@ -8,7 +8,7 @@ Theorems over the executable model `Tls.enc` / `Tls.dec` (`CTV/Tls/Codec.lean`, 
 correspondence run on generated Go types) for **every** type shape in the universe `Tls.Ty` — fixed-width
 integers, enums, byte arrays, byte strings, vectors, nested structs, selector-driven variants — every value
 and every byte string.  The range test `Info.check` and `byteCount` are the kernels **regenerated** from
-`tls/tls.go` on each run (`Gen.fieldInfoCheck`, `Gen.byteCount`); `check_sound`, `check_spec_partial`
+`tls/tls.go` on each run (`Gen.fieldInfoCheck`, `Gen.byteCount`); `check_sound`, `check_spec_partial`, `C09Width8.check_spec`
 and `byteCount_spec` are proved about whatever the extractor produced.
 
 `Ty.wf` (hypothesis of `dec_enc` only): every enum / length prefix has a size clause of 1…8 bytes, and the
@@ -161,12 +161,8 @@ theorem check_sound (i : Info) (v : Nat) (hc : i.count ≤ 8) (h : i.check v = t
     all_goals simp_all
     all_goals omega
 
-/- FULL: `check_spec : i.count ≤ 8 → (i.check v = true ↔ v < 256 ^ i.count ∧ (i.maxlen = 0 ∨ (i.minlen ≤ v ∧ v ≤ i.maxlen)))`
-for every `v < 2^64`.
-On the unchanged tree the statement is FALSE at `count = 8`: `1 << (8*count)` wraps to 0 and every value is
-refused (finding F2, re-found by the harness on `struct{E tls.Enum `tls:"size:8"`}`), so only the widths 0…7 are
-proved here; the direction "accepted ⇒ in range" holds for all widths (`check_sound`).  With fixes/C09-2.diff
-applied the 8-byte case is covered by the correspondence run (model = regenerated kernel = code). -/
+/-- The iff for widths ≤ 7, kept because its proof does not depend on how width 8 is handled; the statement for all
+widths 1…8 is `C09Width8.check_spec`. -/
 theorem check_spec_partial (i : Info) (v : Nat) (hc : i.count ≤ 7) :
     i.check v = true ↔ (v < 256 ^ i.count ∧ (i.maxlen = 0 ∨ (i.minlen ≤ v ∧ v ≤ i.maxlen))) :=
   check_iff i v hc
